@@ -23,7 +23,11 @@ func init() {
 	c01AttrRule = "family attributes: 10 table layouts (CSV, CSV without header, semicolon, CRLF, TSV, LTSV, JSON, JSON Lines, fixed-length multi-line and single-line; by name or through a table function) x 6 data-changing statements (incl. a value too wide for a fixed-length column and the deletion of every row) x " +
 		"26 session flags (every export flag, set before the table is loaded or after the change; every import flag, set after the change) and 11 ALTER TABLE ... SET attributes (before or after the change); " +
 		"oracle: a fresh process reads back, through the table's definition as the procedure left it, exactly the rows the procedure last saw; an unaddressed file keeps its bytes"
-	core.Extend("C01", c01AttrRule, func(c *core.Ctx) { c01AttrRun(c, "C01") })
+	core.Extend("C01", c01AttrRule, func(c *core.Ctx) {
+		if !c01FamilyOff("attributes") {
+			c01AttrRun(c, "C01")
+		}
+	})
 }
 
 var c01AttrRule string
